@@ -308,6 +308,76 @@ func exprOfOffset(v ssa.Value) string {
 }
 
 // ruleWideGuards (C19-G): a guard that demands more bytes than the guarded code examines.
+// neededOffset: the largest offset j of a read s[X+j] in the region guard gs[gi] dominates that no other guard on the
+// same (X, s) covers. A guard that demands more than this (k > needed) could be weakened without exposing any read:
+// the extra bytes it insists on are never looked at under its protection.
+func neededOffset(fn *ssa.Function, gs []windowGuard, gi int) (needed int64, reads int) {
+	g := gs[gi]
+	needed = -1 << 30
+	for _, blk := range fn.Blocks {
+		if !edgeDominates(g.iff.Block(), g.edge, blk) {
+			continue
+		}
+		for _, ins := range blk.Instrs {
+			ia, ok := ins.(*ssa.IndexAddr)
+			if !ok || ia.X != g.slice {
+				continue
+			}
+			ix, j := splitOffset(ia.Index)
+			if ix != g.base {
+				continue
+			}
+			reads++
+			covered := false
+			for gj, o := range gs {
+				if gj == gi || o.iff == g.iff || o.slice != g.slice || o.base != g.base || o.k < j {
+					continue
+				}
+				if edgeDominates(o.iff.Block(), o.edge, blk) {
+					covered = true
+				}
+			}
+			if !covered && j > needed {
+				needed = j
+			}
+		}
+	}
+	return
+}
+
+// ruleWideGuardsEverywhere (C09-G): the exact-guard rule outside package util, with the refinement that a read which
+// has its own guard does not justify the enclosing one.
+func ruleWideGuardsEverywhere(w *World, r *Report) {
+	r.Rule("C09-G", "In every package other than util (the parsers, readers, renderers and extensions): a window guard X+k < len(s) with k > 0 — typically a scanning loop bounded by len(s)-k — must be needed by some read it protects: among the reads s[X+j] it dominates that no other guard on the same X and s covers, the largest j equals k. A loop that stops k bytes before the end although its body only looks at s[X] (a lookahead s[X+1] inside carries its own guard) treats a construct that ends exactly at the end of the input differently from the same bytes followed by a newline: a reference definition whose '<…>' destination ends the document is no longer recognised. (Guards all of whose reads are covered by other guards are redundant, not wide, and are ignored.)")
+	n := 0
+	for _, fn := range w.Funcs {
+		if w.PkgOf(fn) == modPath+"/util" || fn.Synthetic != "" {
+			continue
+		}
+		gs := windowGuards(fn)
+		for gi, g := range gs {
+			if g.k <= 0 || g.reads == 0 {
+				continue
+			}
+			if p, ok := g.base.(*ssa.Phi); ok && p.Comment == "rangeindex" {
+				continue
+			}
+			needed, reads := neededOffset(fn, gs, gi)
+			if reads == 0 || needed < -1<<20 {
+				continue // redundant: every read it dominates is covered by another guard
+			}
+			n++
+			key := fmt.Sprintf("%s: guard %s+%d < len(%s)", w.FnKey(fn), stableName(g.base), g.k, stableName(g.slice))
+			if g.k > needed {
+				r.Bad(key, w.InstrPos(g.iff), fmt.Sprintf("the guard requires offset +%d to be in range but the reads that depend on it go only up to +%d: at the very end of the input the construct is handled differently from the same bytes elsewhere", g.k, needed))
+			} else {
+				r.OK(key, w.InstrPos(g.iff), fmt.Sprintf("needed by a read at +%d", needed))
+			}
+		}
+	}
+	r.Expect("window guards with lookahead outside package util", n, 5)
+}
+
 func ruleWideGuards(w *World, r *Report) {
 	r.Rule("C19-G", "Contradiction rule for the byte scanners of package util: a window guard X+k < len(s) (k > 0) whose guarded region reads s at offsets from X only up to +m with m < k demands bytes the code never looks at, so the same construct is treated differently when it stands at the very end of the input (a %XX triple, a character reference, an escape that ends the string is no longer recognised). Every such guard must be exact (k == m).")
 	n := 0
